@@ -164,8 +164,10 @@ static void s_alloc_tracer_track(struct alloc_tracer *tracer, void *ptr, size_t 
              * have, to at least have an anchor for where allocation is comming from, however inaccurate it is.
              */
             if (stack_depth <= FRAMES_TO_SKIP) {
-                memcpy((void **)&stack->frames[0], &stack_frames[0], (stack_depth) * sizeof(void *));
-                stack->depth = stack_depth;
+                /* the record has room for frames_per_stack frames, which can be fewer than we got */
+                size_t kept_depth = stack_depth < tracer->frames_per_stack ? stack_depth : tracer->frames_per_stack;
+                memcpy((void **)&stack->frames[0], &stack_frames[0], kept_depth * sizeof(void *));
+                stack->depth = kept_depth;
                 item->value = stack;
             } else {
                 memcpy(
